@@ -66,6 +66,11 @@ CHECKS['C04'] = dict(
    text='Generated-input search with a reference model. Every leaf body starts by invoking a recording contract, so the set of leaf bodies that started is observable. Complete: all 65 binary shapes with 2-6 leaves x every leaf x three pre-witnesses (honest proof: exactly that leaf starts, verdict = the leaf\'s own verdict, pack/unpack keeps root and all unlocking scripts) and eight corruption kinds per leaf judged by a reference verifier (a proof that does not hash to the root must give False with an empty recorder; one that happens to stay valid must run exactly the leaf the reference names); all four builders for 1..24 leaves (i-th unlocking script runs input leaf i only, incl. next to filler leaves). Random: shapes of 2-8 leaves with generated leaf bodies.',
    note='Corruptions are applied to the proof data and re-encoded with well-formed pushes, so the recorder can be reached only through the lock (a witness may run anything as its own code; that is not what the property forbids). Leaf scripts stay below the item size limit.',
    design='3/C04')
+CHECKS['C05'] = dict(
+   technique='Hypothesis seeds / committed scripts / flags x 16 witness kinds; reference point arithmetic for the root; RFC 8032 reference for the key path; recording contract for the script path; differential native vs non-native lock',
+   text='Generated-input search with reference models. The 32 bytes pushed by make_taproot_lock, make_nonnative_taproot_lock and make_graftap_lock must equal P + clamp(sha256(P || sha256(S)))*G computed with the pure-Python reference. Key path: the builder key-spend witness is a valid RFC 8032 signature under the root and authorises exactly when its flag is permitted; signatures by the untweaked key, another key, over other fields, bit-flipped, or against a bit-flipped root never do. Script path: the committed script (which starts by invoking a recording contract) starts exactly when (script, key) recomputes to the root; other script, other key, foreign pair, non-point, empty script, bit-flipped script and every tiny would-authorise script of length 1..48 give False with an empty recorder. Graftap key and script spends unlock; a surrogate signed by a foreign key does not. Native and non-native locks must agree on every case and on adversarial witnesses of the C01 family.',
+   note='Negative script-path witnesses are pure pushes. Native vs non-native is compared at default stack limits for witnesses leaving a call budget >= 28 and a stack below 900 items.',
+   design='3/C05')
 NOT_YET = {}
 for i in range(1, 21):
     pid = 'C%02d' % i
